@@ -10,6 +10,7 @@ import (
 	"testing"
 	"time"
 
+	v2 "mosn.io/mosn/pkg/config/v2"
 	"mosn.io/mosn/pkg/upstream/cluster"
 	"pgregory.net/rapid"
 
@@ -28,6 +29,10 @@ type Batch struct {
 	// object is dropped by the manager, the next request builds a new one; whatever the old pool still holds must be
 	// given back when its connections end.
 	PoolShutdownMs []int `json:"sd,omitempty"`
+	// RepushMs: at these offsets the cluster is delivered again together with its hosts (same configuration, same hosts:
+	// what an xDS / admin push of an unchanged cluster does) while the batch's requests, retries and connections are in
+	// flight; the counters are read through the cluster's CURRENT snapshot afterwards
+	RepushMs []int `json:"rp,omitempty"`
 }
 
 func (b *Batch) json() string { x, _ := json.Marshal(b); return string(x) }
@@ -226,6 +231,11 @@ func genBatch(rt *rapid.T) *Batch {
 	if b.Proto != "tcp" && rapid.IntRange(0, 3).Draw(rt, "poolShutdown") == 0 {
 		for i, n := 0, rapid.IntRange(1, 2).Draw(rt, "nPoolShutdowns"); i < n; i++ {
 			b.PoolShutdownMs = append(b.PoolShutdownMs, rapid.SampledFrom([]int{0, 2, 5, 20, 50, 90, 140}).Draw(rt, "poolShutdownMs"))
+		}
+	}
+	if b.Proto != "tcp" && rapid.IntRange(0, 3).Draw(rt, "clusterRepush") == 0 {
+		for i, n := 0, rapid.IntRange(1, 2).Draw(rt, "nRepushes"); i < n; i++ {
+			b.RepushMs = append(b.RepushMs, rapid.SampledFrom([]int{0, 2, 5, 20, 50, 90, 140}).Draw(rt, "repushMs"))
 		}
 	}
 	return b
@@ -572,6 +582,19 @@ func (r *rig) execConns(conns []ConnPlan) *batchRun {
 			}
 		}()
 	}
+	for _, ms := range r.repushMs {
+		ms := ms
+		wg.Add(1)
+		go func() {
+			defer wg.Done()
+			time.Sleep(time.Duration(ms) * time.Millisecond)
+			var hs []v2.Host
+			for _, a := range r.addrs {
+				hs = append(hs, v2.Host{HostConfig: v2.HostConfig{Address: a}})
+			}
+			_ = cluster.GetClusterMngAdapterInstance().TriggerClusterAndHostsAddOrUpdate(r.clusterCfg, hs)
+		}()
+	}
 	fin := make(chan struct{})
 	go func() { wg.Wait(); close(fin) }()
 	select {
@@ -612,6 +635,7 @@ func runBatch(t ev.TB, part string, b *Batch) (classes []string, nontrivial bool
 	r.startSampler()
 	if b.Proto != "tcp" { // the tcp proxy has no pools
 		r.poolShutdownMs = b.PoolShutdownMs
+		r.repushMs = b.RepushMs
 	}
 	br := r.execConns(b.Conns)
 	closeKept := br.closeKept
@@ -664,6 +688,9 @@ func runBatch(t ev.TB, part string, b *Batch) (classes []string, nontrivial bool
 	}
 	if len(r.poolShutdownMs) > 0 {
 		cls["pool-shutdown"] = true
+	}
+	if len(r.repushMs) > 0 {
+		cls["cluster-delivered-again-mid-batch"] = true
 	}
 	for i := range b.Conns {
 		for j := range b.Conns[i].Reqs {
